@@ -11,6 +11,7 @@ terms.  Frames are chained for k-step unrolling; the first frame's state is eith
 """
 import warnings
 warnings.simplefilter("ignore")
+import os
 import z3
 from amaranth.hdl import Fragment, Signal
 from amaranth.hdl._ir import build_netlist
@@ -534,7 +535,7 @@ class Frame:
 
 
 # ---- solving -------------------------------------------------------------------------------
-def prove(claim, assumptions=(), timeout_ms=60000):
+def prove(claim, assumptions=(), timeout_ms=60000, retry=True):
     """Return ('unsat', None) when the claim holds for all values, ('sat', model) with a counter-model, or ('unknown', reason)."""
     s = z3.Solver()
     s.set("timeout", timeout_ms)
@@ -542,6 +543,10 @@ def prove(claim, assumptions=(), timeout_ms=60000):
         s.add(a)
     s.add(z3.Not(claim))
     r = s.check()
+    if r == z3.unknown and retry and not os.environ.get("VERIF_NO_RETRY"):
+        # a busy machine must not flip a verdict: one more attempt with three times the budget
+        s.set("timeout", timeout_ms * 3)
+        r = s.check()
     if r == z3.unsat:
         return "unsat", None
     if r == z3.sat:
